@@ -71,6 +71,18 @@ CHECKS["C20"] = dict(
     design="4 (C20), 5 (D10 fixed)",
     note="time.Local is set to UTC by the driver; floats are not generated (Go's shortest %v is not modelled); handlers are called through httptest without the ServeMux.")
 
+CHECKS["C16"] = dict(
+    engine="bld",
+    technique="Lean 4 proof (bookkeeping invariant by induction over all op sequences; equality of the add paths; reset/new bisimulation) + public-API differential correspondence",
+    text="Proved on the builder model: length_inv (for every op sequence length = 4 + sum of record lengths), serialize_length and "
+         "createMsg_length (bytes serialized = length; message = 16 + length, error iff > 65535), add_paths_equiv_data / _template (element-by-"
+         "element AddRecord(WithExtraElements) and slice-adopting AddRecordV2 build identical sets), reset_like_new(_run), header_len, "
+         "model_holdsObs, and the out-of-domain counter-example new_vs_reset_without_prepare_differ. 12.6k op sequences (quick) run through the "
+         "public API on a reused set, a fresh set and with each add path; Ipfix.C16.holdsObs is evaluated on every implementation observation "
+         "and the reuse / add-path relations are also checked implementation-vs-implementation.",
+    design="4 (C16)",
+    note="element values are immutable in the model; template records take nil/zero values (IsValueEmpty).")
+
 NOT_YET = {}
 
 
